@@ -6,9 +6,6 @@ namespace Wz.Model.SsaPass
 
 /-! ### aliases -/
 
-/-- resolved form: the target of an entry is never a key -/
-def AliasNF (al : List (Val × Val)) : Prop := ∀ k t, (k, t) ∈ al → aliasGet al t = none
-
 theorem aliasGet_mem {al : List (Val × Val)} {v t : Val} (h : aliasGet al v = some t) : (v, t) ∈ al := by
   induction al with
   | nil => simp [aliasGet] at h
